@@ -42,7 +42,7 @@ type gen struct {
 	bs         int
 	cmp        func(a, b []byte) int
 	bigJournal bool
-	bigKeys    int // > 0: every key gets a tail of about this many bytes
+	bigKeys    int  // > 0: every key gets a tail of about this many bytes
 	allowEmpty bool // single-client programs also store empty values
 }
 
